@@ -235,7 +235,15 @@ func c06LCPOpened(s *SessionState, bus *c06Bus, first bool) bool {
 		s.lcp.FSM().Input(ppp.ConfReq, 1, peerReq)
 	} else {
 		bus.lcp = nil
+		// NCPs have been started, so production is in the Network (or Open) phase when the renegotiation arrives
+		s.Phase = ppp.PhaseNetwork
 		s.lcp.FSM().Input(ppp.ConfReq, 2, peerReq) // Opened: tld (onLCPDown), scr, sca -> Ack-Sent
+		if s.linkEnded {
+			// e9950ea: handleSession now tears the session down; nothing else reaches it
+			bus.lcp = nil
+			return true
+		}
+		s.Phase = ppp.PhaseAuthenticate
 		r := lastReq()
 		if r == nil {
 			return false
@@ -347,6 +355,10 @@ func c06Sess(f []string) string {
 	}
 	parts = append(parts, first+" a="+c06ShowAddr(s.IPv4Address)+" pa="+c06ShowAddr(s.ipcp.PeerConfig().PeerAddress))
 	for _, ev := range f[1:] {
+		if s.linkEnded {
+			parts = append(parts, "ended")
+			continue
+		}
 		switch {
 		case ev == "k":
 			if lastReq == nil {
@@ -377,10 +389,12 @@ func c06Sess(f []string) string {
 			if !c06LCPOpened(s, bus, false) {
 				return "lcp-not-reopened"
 			}
-			s.extractIPFromAttributes()
-			c06Registry(s, ral, rrs)
-			s.Phase = ppp.PhaseAuthenticate
-			s.startNCP()
+			if !s.linkEnded {
+				s.extractIPFromAttributes()
+				c06Registry(s, ral, rrs)
+				s.Phase = ppp.PhaseAuthenticate
+				s.startNCP()
+			}
 		case ev == "D":
 			if !c06LCPOpened(s, bus, false) {
 				return "lcp-not-reopened"
@@ -508,6 +522,10 @@ func c06Sess6(f []string) string {
 	}
 	parts := []string{show()}
 	for _, ev := range f[1:] {
+		if s.linkEnded {
+			parts = append(parts, "ended")
+			continue
+		}
 		var rid uint8
 		var rdata []byte
 		if lastReq != nil {
@@ -531,8 +549,10 @@ func c06Sess6(f []string) string {
 			if !c06LCPOpened(s, bus, false) {
 				return "lcp-not-reopened"
 			}
-			s.Phase = ppp.PhaseAuthenticate
-			s.startNCP()
+			if !s.linkEnded {
+				s.Phase = ppp.PhaseAuthenticate
+				s.startNCP()
+			}
 		case 'D':
 			if !c06LCPOpened(s, bus, false) {
 				return "lcp-not-reopened"
